@@ -194,7 +194,10 @@ def benign_variants() -> list[Variant]:
             continue
         first = meta.get("first_run", {})
         props = {meta.get("property")} | set(first.get("false_alarms", [])) | set(first.get("analysis_errors", []))
-        for prop in sorted(p for p in props if p):
+        # a refactoring that still trips a check is recorded as *open* brittleness (DESIGN A.7) for exactly those checks: it is not a
+        # must-stay-silent variant of them until the anchor concerned has been re-stated (the other checks stay armed on it)
+        still_open = set(meta.get("open", []))
+        for prop in sorted(p for p in props if p and p not in still_open):
             out.append(Variant(f"{bid}~{prop}", prop, "silent", "", "", "", (meta.get("title") or bid)[:90], patch=pp))
     return out
 
